@@ -234,5 +234,38 @@ theorem sum_shift_cartesian_float {a b : Geonum F} (n : ℕ) (ha : a.angle.Inv) 
   rw [abs_le]
   constructor <;> constructor <;> linarith [p1.1, p1.2, p2.1, p2.2, q1.1, q1.2, q2.1, q2.2]
 
+
+/-- **difference of two geometric numbers in rounded arithmetic, general branch**: the Cartesian components of `a − p` are the
+    component-wise differences, within the `sum_cartesian_float` bound at blade count `ba + bp + 2` — hence `p + (a − p)` reproduces `a`
+    as a point (used for projection + rejection) -/
+theorem sub_cartesian_float {a p : Geonum F} (ha : a.angle.Inv) (hp : p.angle.Inv) (hma : a.MagDom) (hmp : p.MagDom)
+    (hcb : a.angle.blade + p.angle.blade + 2 ≤ 2 ^ 39)
+    (h1 : sameAngle a p.negate = false) (h2 : oppositeAngle a p.negate = false) :
+    |val (a.sub p).mag * Real.cos (Tpi (a.sub p).angle) + val p.mag * Real.cos (Tpi p.angle) - val a.mag * Real.cos (Tpi a.angle)|
+      ≤ (val a.mag + val p.mag) * (2 / 10 ^ 7 + 11 / 10 * (val (e10 : F)
+          + (40 * ((a.angle.blade + p.angle.blade + 2 : ℕ) : ℝ) + 170) * (1 / 2 ^ 53))) + 1 / 10 ^ 28 ∧
+    |val (a.sub p).mag * Real.sin (Tpi (a.sub p).angle) + val p.mag * Real.sin (Tpi p.angle) - val a.mag * Real.sin (Tpi a.angle)|
+      ≤ (val a.mag + val p.mag) * (2 / 10 ^ 7 + 11 / 10 * (val (e10 : F)
+          + (40 * ((a.angle.blade + p.angle.blade + 2 : ℕ) : ℝ) + 170) * (1 / 2 ^ 53))) + 1 / 10 ^ 28 := by
+  obtain ⟨hT, hninv⟩ := Tpi_negate hp
+  obtain ⟨hnb, _, _⟩ := negate_spec hp
+  have hbl : a.angle.blade + p.negate.angle.blade = a.angle.blade + p.angle.blade + 2 := by
+    show a.angle.blade + p.angle.negate.blade = _; rw [hnb]; ring
+  obtain ⟨q1, q2⟩ := sum_cartesian_float (a := a) (b := p.negate) ha (show p.negate.angle.Inv from hninv) hma
+    (show p.negate.MagDom from hmp) (by rw [hbl]; exact hcb) h1 h2
+  have hT' : Tpi p.negate.angle = Tpi p.angle + Real.pi := hT
+  have hm : val p.negate.mag = val p.mag := rfl
+  rw [hT', Real.cos_add_pi, hm, hbl] at q1
+  rw [hT', Real.sin_add_pi, hm, hbl] at q2
+  have hsub : a.sub p = a.add p.negate := rfl
+  rw [hsub]
+  constructor
+  · have e : val (a.add p.negate).mag * Real.cos (Tpi (a.add p.negate).angle) + val p.mag * Real.cos (Tpi p.angle) - val a.mag * Real.cos (Tpi a.angle)
+        = val (a.add p.negate).mag * Real.cos (Tpi (a.add p.negate).angle) - (val a.mag * Real.cos (Tpi a.angle) + val p.mag * -Real.cos (Tpi p.angle)) := by ring
+    rw [e]; exact q1
+  · have e : val (a.add p.negate).mag * Real.sin (Tpi (a.add p.negate).angle) + val p.mag * Real.sin (Tpi p.angle) - val a.mag * Real.sin (Tpi a.angle)
+        = val (a.add p.negate).mag * Real.sin (Tpi (a.add p.negate).angle) - (val a.mag * Real.sin (Tpi a.angle) + val p.mag * -Real.sin (Tpi p.angle)) := by ring
+    rw [e]; exact q2
+
 end Geonum
 end GeonumModel
